@@ -44,7 +44,8 @@ impl Property for C09 {
     fn rule(&self) -> String {
         "two concurrent honest DKG runs A, B of the same identifiers. Enumerated COMPLETELY per (suite, n, t of run A, t of run B, participant, own run): every \
          filling of the participant's n-1 round-one slots with {A, B, absent} and, where part2 succeeds, every filling of its n-1 round-two \
-         slots with {(run, addressee != sender)} or absent; then all 2^n common round-one sets jointly. Quick: n=3 all t for all six \
+         slots with {(run, addressee != sender)} or absent; additionally every round-one filling with the participant's OWN slot \
+         filled by its own contribution to run A or B (and its own round-two share when part2 emits one); then all 2^n common round-one sets jointly. Quick: n=3 all t for all six \
          suites, n=4 all t for the five fast suites; thorough: n=4 for all six suites plus sampled histories for n in {5,6}. One \
          evaluation per part2/part3 execution. non-trivial = every history other than perfect delivery of one run; distinct = distinct \
          (suite, n, t, participant, own run, round-one filling, round-two filling) tuples"
@@ -133,6 +134,7 @@ impl Property for C09 {
             ("n=4".into(), 20),
             ("runs-with-different-thresholds".into(), m),
             ("runs-with-equal-thresholds".into(), m),
+            ("own-slot:part2-rejected".into(), m),
         ]
     }
     fn check(&self, suite: SuiteId, case: &Case, ctx: &mut Ctx) -> CheckResult {
@@ -312,6 +314,80 @@ fn local<C: Suite>(shape: Shape, t_b: u16, ids: IdSpec, seed: u64, part: usize, 
                         ctx.fail("C09/perfect-delivery-rejected", format!("part3 failed on perfect delivery of one run: {e:?} ({desc1})"))?;
                     }
                     ctx.label("part3:rejected");
+                }
+            }
+        }
+    }
+    // ---- the participant's OWN slot is a sender slot too: the network hands it back what it produced itself
+    // (for its own run or for the concurrent one) next to every filling of the peers' slots. Each step fails or
+    // yields internally consistent key material determined by the filed contributions.
+    if sampled == 0 {
+        for own_slot in 0..2usize {
+            for code in 0..n_r1 {
+                let mut f1 = vec![0usize; m];
+                let mut c = code;
+                for slot in f1.iter_mut() {
+                    *slot = c % 3;
+                    c /= 3;
+                }
+                let mut r1m: BTreeMap<Id<C>, round1::Package<C>> = BTreeMap::new();
+                for (k, s) in peers.iter().enumerate() {
+                    if f1[k] != ABSENT {
+                        r1m.insert(*s, rs.runs[f1[k]].r1_pkg[s].clone());
+                    }
+                }
+                r1m.insert(me, rs.runs[own_slot].r1_pkg[&me].clone());
+                ctx.eval(&format!("{},{},{},{part},{own},r1-own{own_slot},{:?}", shape.n, rs.ts[0], rs.ts[1], f1), true);
+                let desc1 = format!(
+                    "n={} t(A)={} t(B)={} participant#{part} own run {} round-one slots {:?} (0=A 1=B 2=absent) plus its OWN slot filled with its contribution to run {}",
+                    shape.n,
+                    rs.ts[0],
+                    rs.ts[1],
+                    ["A", "B"][own],
+                    f1,
+                    ["A", "B"][own_slot]
+                );
+                let (sec, out) = match dkg::part2(rs.runs[own].r1_secret[&me].clone(), &r1m) {
+                    Ok(x) => x,
+                    Err(_) => {
+                        ctx.label("own-slot:part2-rejected");
+                        continue;
+                    }
+                };
+                ctx.label("own-slot:part2-accepted");
+                ensure!(ctx, !f1.contains(&ABSENT), "C09/part2-accepts-missing-contribution", "part2 succeeded with an absent round-one contribution ({desc1})");
+                // round two: matched shares of the peers; own slot absent, or the share part2 produced for itself (if any)
+                let mut r2m: BTreeMap<Id<C>, round2::Package<C>> = BTreeMap::new();
+                for (k, s) in peers.iter().enumerate() {
+                    r2m.insert(*s, rs.runs[f1[k]].r2_pkg[s][&me].clone());
+                }
+                let mut variants = vec![r2m.clone()];
+                if let Some(p) = out.get(&me) {
+                    let mut v = r2m.clone();
+                    v.insert(me, p.clone());
+                    variants.push(v);
+                }
+                for r2v in variants {
+                    ctx.eval(&format!("{},{},{},{part},{own},r2-own{own_slot},{:?},{}", shape.n, rs.ts[0], rs.ts[1], f1, r2v.len()), true);
+                    if let Ok((kp, pk)) = dkg::part3(&sec, &r1m, &r2v) {
+                        ctx.label("own-slot:part3-accepted");
+                        consistent::<C>(ctx, &kp, &pk, rs.ts[own], n, "C09", &desc1)?;
+                        ensure!(ctx, *kp.identifier() == me, "C09/identifier", "key package carries another identifier ({desc1})");
+                        // whatever it accepted, the key must be the one determined by the n filed contributions
+                        // (its own secret polynomial counted once)
+                        let mut virt = DkgRun { r1_secret: BTreeMap::new(), r1_pkg: BTreeMap::new(), r2_secret: BTreeMap::new(), r2_pkg: BTreeMap::new() };
+                        virt.r1_pkg.insert(me, rs.runs[own].r1_pkg[&me].clone());
+                        virt.r1_secret.insert(me, rs.runs[own].r1_secret[&me].clone());
+                        for (k, s) in peers.iter().enumerate() {
+                            virt.r1_pkg.insert(*s, rs.runs[f1[k]].r1_pkg[s].clone());
+                            virt.r1_secret.insert(*s, rs.runs[f1[k]].r1_secret[s].clone());
+                        }
+                        let exp = expected_from_run::<C>(ctx, &virt, &rs.idv)?;
+                        ensure!(ctx, pk.verifying_key().to_element() == exp.group_key, "C09/group-key-not-from-filed-round-one", "group key is not determined by the filed round-one contributions ({desc1})");
+                        ensure!(ctx, kp.signing_share().to_scalar() == exp.shares[&me], "C09/share-not-from-filed-round-one", "signing share is not the sum of the filed senders' polynomials ({desc1})");
+                    } else {
+                        ctx.label("own-slot:part3-rejected");
+                    }
                 }
             }
         }
